@@ -19,7 +19,9 @@ type Multi struct {
 // NewLoader returns a new multi loader. The order of the loaders passed as parameters
 // will define the order in which templates are loaded.
 func NewLoader(loaders ...jet.Loader) *Multi {
-	return &Multi{loaders: loaders}
+	// (a copy: AddLoaders must not append into an array the caller, or another Multi built from
+	// the same slice, still uses)
+	return &Multi{loaders: append([]jet.Loader(nil), loaders...)}
 }
 
 // AddLoaders adds the passed loaders to the list of loaders.
